@@ -189,19 +189,19 @@ class _Gen:
 
     # -- op makers -----------------------------------------------------------------------
     WEIGHTS = {
-        #        calc  edit  repeat setopt initopt restart heat  undo
-        "C12": (0.42, 0.16, 0.08, 0.08, 0.03, 0.00, 0.10, 0.13),
-        "C05": (0.60, 0.10, 0.05, 0.06, 0.00, 0.00, 0.07, 0.12),
-        "C14": (0.30, 0.05, 0.02, 0.30, 0.28, 0.00, 0.02, 0.03),
-        "C15": (0.34, 0.12, 0.02, 0.10, 0.00, 0.24, 0.10, 0.08),
-        "C07": (0.50, 0.32, 0.03, 0.05, 0.00, 0.00, 0.00, 0.10),
+        #        calc  edit  repeat setopt initopt restart heat  undo  reusepair
+        "C12": (0.38, 0.16, 0.08, 0.08, 0.03, 0.00, 0.10, 0.12, 0.05),
+        "C05": (0.57, 0.10, 0.05, 0.06, 0.00, 0.00, 0.07, 0.11, 0.04),
+        "C14": (0.30, 0.05, 0.02, 0.30, 0.28, 0.00, 0.02, 0.03, 0.00),
+        "C15": (0.33, 0.12, 0.02, 0.10, 0.00, 0.24, 0.10, 0.07, 0.02),
+        "C07": (0.50, 0.32, 0.03, 0.05, 0.00, 0.00, 0.00, 0.10, 0.00),
     }
 
     def make_ops(self, n):
         rng = self.rng
         ops = []
         w = self.WEIGHTS.get(self.prop, self.WEIGHTS["C12"])
-        kinds = ("calc", "edit", "repeat", "setopt", "initopt", "restart", "heat", "undo")
+        kinds = ("calc", "edit", "repeat", "setopt", "initopt", "restart", "heat", "undo", "reusepair")
         # always start with one plain calculation so there is state to be stale about
         while len(ops) < n:
             k = rng.choices(kinds, weights=w)[0] if ops else "calc"
@@ -222,6 +222,8 @@ class _Gen:
                 ops.append(self.op_restart())
             elif k == "heat" and self.meta["thermal"]:
                 ops.extend(self.op_heat_from_stored())
+            elif k == "reusepair":
+                ops.extend(self.op_reuse_pair())
             else:
                 ops.extend(self.op_undo())
         ops.extend(self.op_undo(all_=True))
@@ -372,6 +374,40 @@ class _Gen:
             fault = rng.choice(["open", "write"])
         return {"op": "restart", "path": path, "disk_fault": fault,
                 "errno": rng.choice([28, 5])}
+
+    def op_reuse_pair(self):
+        """Two calculations that legitimately share the cached matrix structure (only_update_hydraulic_matrix, the
+        second one with reuse_internal_data, only a load changed in between, the second one possibly dying inside the
+        Newton loop).  Whatever they leave behind must not reach the calls that follow."""
+        rng = self.rng
+        kw = self.calc_kw()
+        kw.pop("alpha", None)
+        kw.pop("nonlinear_method", None)
+        kw["only_update_hydraulic_matrix"] = True
+        kw2 = dict(kw)
+        kw2["reuse_internal_data"] = True
+        ops = [{"op": "calc", "kw": kw, "faults": []}]
+        loads = [l for l in self.meta["loads"] if l[2].endswith("mdot_kg_per_s")]
+        undo = []
+        if loads and rng.random() < 0.6:
+            (t, i, c, v) = rng.choice(loads)
+            cur = self.values[(t, i, c)]
+            ops.append({"op": "edit", "table": t, "index": i, "col": c, "val": round(float(cur) * rng.choice([0.5, 1.5]), 8)})
+            undo = [{"op": "edit", "table": t, "index": i, "col": c, "val": cur}]
+        if rng.random() < 0.35:
+            for key in ("iter",) + STAGE_ITER:
+                kw2.pop(key, None)
+            kw2["iter"] = 1
+        ops.append({"op": "calc", "kw": kw2, "faults": []})
+        ops += undo
+        if rng.random() < 0.5:
+            # the call that must not see the leftovers: matrix update without reuse
+            kw3 = self.calc_kw()
+            kw3["only_update_hydraulic_matrix"] = True
+            ops.append({"op": "calc", "kw": kw3, "faults": []})
+        self.last_calc = ops[0]
+        self.dirty_since_hyd = True
+        return ops
 
     def op_heat_from_stored(self):
         """hydraulics-only calc immediately followed by a thermal-only calc fed with its solution."""
@@ -580,6 +616,7 @@ def _execute(trace, res, prop, program, meta, ops, solver, fs):
     hyd_flag_model = None        # None = never set
     last_calc = None
     restarted = 0
+    reuse_ok = False             # the previous operation was a matrix-updating calculation (cached structure is current)
     res.sig_parts.append(meta["family"])
 
     def overlay_list():
@@ -613,6 +650,8 @@ def _execute(trace, res, prop, program, meta, ops, solver, fs):
                 if s is not None:
                     netmodel.apply_edit(s.net, *key, op["val"])
             overlay[key] = op["val"]
+            if isinstance(op["val"], bool) or op["col"] in ("in_service", "opened"):
+                reuse_ok = False
             live.stored_sol = None
             live.last_res = None
             if isinstance(op["val"], bool) or op["col"] in ("in_service", "opened"):
@@ -630,6 +669,7 @@ def _execute(trace, res, prop, program, meta, ops, solver, fs):
             if op["kw"] != kwc:
                 res.violate("C14", "C14/caller-kwargs-mutated@set_user_pf_options", "", oi)
             live.last_res = None
+            reuse_ok = False
             live.stored_sol = None   # a stored hydraulic solution belongs to the options it was computed with
             if op["reset"]:
                 user_model = {}
@@ -660,6 +700,7 @@ def _execute(trace, res, prop, program, meta, ops, solver, fs):
         # --------------------------------------------------------------------------------
         if kind == "restart":
             restarted += 1
+            reuse_ok = False
             _do_restart(res, live, op, fs, oi, restarted)
             res.sig_parts.append("R:%s:%s" % (op["path"], op["disk_fault"]))
             continue
@@ -667,6 +708,11 @@ def _execute(trace, res, prop, program, meta, ops, solver, fs):
         # --------------------------------------------------------------------------------
         assert kind == "calc"
         kw = copy.deepcopy(op["kw"])
+        if prop != "C14" and kw.get("reuse_internal_data") and not reuse_ok:
+            # reusing cached data is only legitimate right after a matrix-updating call on the same structure
+            # (the generator emits such pairs; shrinking may have separated them)
+            kw.pop("reuse_internal_data")
+            res.count("probe:reuse-downgraded")
         faults = op.get("faults") or []
         heat_stored = bool(op.get("heat_stored"))
         sol = None
@@ -773,7 +819,9 @@ def _execute(trace, res, prop, program, meta, ops, solver, fs):
             res.count("probe:repeat")
 
         # ---- C12 / C05: fresh twin ---------------------------------------------------------
-        reuse = bool(opts_model.get("reuse_internal_data")) or bool(opts_model.get("only_update_hydraulic_matrix"))
+        # (a call that reuses cached data is history-dependent by design and judged by C07; a call that only
+        # updates the matrix without reusing must behave like one on a fresh net)
+        reuse = bool(opts_model.get("reuse_internal_data"))
         if not faulted and not reuse:
             if heat_stored:
                 twin, tout = twin_run(kw, mode_override="sequential")
@@ -830,6 +878,9 @@ def _execute(trace, res, prop, program, meta, ops, solver, fs):
             _run_replicas(res, replicas, op, live, outcome, mode, solver, oi)
 
         # ---- bookkeeping -------------------------------------------------------------------
+        reuse_ok = bool(opts_model.get("only_update_hydraulic_matrix")) and mode != "heat"
+        if bool(opts_model.get("reuse_internal_data")):
+            res.count("probe:reusing-call-in-history")
         live.prev_failed = outcome != "ok"
         live.last_outcome = outcome
         live.last_faulted = faulted
